@@ -26,6 +26,8 @@ Check == /\ \A so \in SeqOpts : SeqRoundTrip(d, so)
                                 x |-> Join(RenderSeq(EncodeSeqRoot(DecodeSeq(d, v[1]), v[1]), EOs(v[1], v[2])))] : v \in Variants})])))
 N(l) == NM("", l)
 cOrder == [names |-> {N(<<"a">>), N(<<"b">>), NM("n-s", <<"b">>)}, anames |-> {}, avals |-> {}, texts |-> {<<"t">>, <<"`", "t", "`">>}, maxattrs |-> 0, extras |-> {}]
+\* five and six elements over one or two names: lists of four and five like-named siblings, contiguous or interleaved
+cWide == [names |-> {N(<<"a">>), N(<<"b">>)}, anames |-> {}, avals |-> {}, texts |-> {}, maxattrs |-> 0, extras |-> {}]
 cAttrs == [names |-> {N(<<"a">>)}, anames |-> {N(<<"x">>), N(<<"y", "-", "z">>), NM("xmlns", <<"n">>), NM("n", <<"x">>)}, avals |-> {<<"1">>, <<"<", "&">>, <<>>},
            texts |-> {}, maxattrs |-> 3, extras |-> {}]
 cAttrs2 == [cAttrs EXCEPT !.maxattrs = 2]      \* two elements: at most two attributes each (three on one element: cAttrs with MaxElems = 1)
